@@ -265,6 +265,7 @@ def run(rep, prog, tier):
     dash_pair(rep, prog, M)
     writer_unicode = cleartext_writer(rep, prog, M, A)
     cleartext_reader(rep, prog, M)
+    cleartext_uncompressed(rep, prog, M)
     hash_header_reader(rep, prog, A)
     canonicalisation(rep, prog, M)
     text_domain(rep, prog, A, writer_unicode)
@@ -594,6 +595,53 @@ def _failed_type_test(t, val, sk):
     while sk[0] == 'not':
         sk, neg = sk[1], not neg
     return sk[0] == 'call' and sk[1] == 'isinstance' and (val if neg else not val)
+
+
+def cleartext_uncompressed(rep, prog, M):
+    """C11.2 (writer half, continued): the signatures of a cleartext message are written as the armored block after the text - the
+    message's own packets, not wrapped into a Compressed Data packet (a reader of the cleartext framework finds no signature in there and
+    PGPMessage.parse drops the packet).  Either PGPMessage.new leaves a cleartext message uncompressed whatever `compression=` says,
+    or the binary export does not compress a cleartext message."""
+    from sa.sigdata import enum_const
+    new = M.methods.get('new')
+    ba = M.methods.get('__bytearray__')
+    if new is None or ba is None:
+        raise AnalysisError('PGPMessage.new / __bytearray__ vanished')
+    rep.saw(fn=new)
+    ps = _own_params(new)
+
+    def oracle(t):
+        for k in ("'file'", "'encoding'", "'sensitive'"):
+            if 'kwargs.pop(%s' % k in t and 'cleartext' not in t and 'compression' not in t:
+                return False
+        return None
+    stored = set()
+    n_clear = 0
+    for s in Interp(prog, Scenario(args={ps[0]: Sym(ps[0], types={'str'}, nonnull=True)}, oracle=oracle, inline=noinline)).run(new):
+        clear = None
+        for t, val, sk in s.facts:
+            for a, truth in implied_atoms(sk, val):
+                if a[0] in ('expr', 'call') and "'cleartext'" in str(a[1:]) and 'pop' in str(a[1:]):
+                    clear = truth
+        if clear is not True or s.raised is not None:
+            continue
+        n_clear += 1
+        for path, vt, line, v in s.stores:
+            if path.endswith('._compression') and vt != 'CompressionAlgorithm.Uncompressed':
+                stored.add(vt)
+    if not n_clear:
+        raise AnalysisError('PGPMessage.new: no path for cleartext=True found')
+    selfn = _receiver(ba)
+    zipc = enum_const(prog, 'CompressionAlgorithm', 'ZIP')
+    wraps = False
+    for s in Interp(prog, Scenario(bind={'%s.type' % selfn: Const('cleartext'), '%s._compression' % selfn: zipc}, inline=noinline,
+                                   inline_props={'is_compressed'})).run(ba):
+        if any(c[0] == 'CompressedData' for c in s.calls):
+            wraps = True
+    rep.check(not (stored and wraps), 'C11.2', 'PGPMessage.new', 'cleartext message compression: %s' % (sorted(stored) or 'left Uncompressed'),
+              'a cleartext message must stay uncompressed whatever compression= says (or its export must not compress it): its signatures are the '
+              'armored block after the text, a Compressed Data packet there is lost on re-import', where=new.where,
+              expected='no _compression other than Uncompressed on the cleartext path', found=sorted(stored))
 
 
 def hash_header_reader(rep, prog, A):
